@@ -408,6 +408,7 @@ static void emit(const std::string & id, const Result & r, const std::string & e
 
 static double parse_plan_val(const std::string & s) { return s == "x" ? std::nan("") : std::atof(s.c_str()); }
 
+static bool g_ref_overrun = false;
 // run the reference on the recorded deviates (plus a tail so that over-consumption is visible)
 static size_t run_reference(int i2bbs, const std::string & name, int level, int mode, int istart, const std::vector<double> & log, int & ier)
 {
@@ -434,8 +435,16 @@ static size_t run_reference(int i2bbs, const std::string & name, int level, int 
   // an initialisation-only call (istart=-1) runs bb() once without resetting the event counter of COMMON /genevent/;
   // the original program does this once per run, this driver thousands of times: reset it here
   genevent_.npfull = 0;
-  genbbsub_(&i2, nm, &il, &mo, &ist, &ier, 16);
-  if (istart != 1 && ier == 0) normalised[key] = std::string(nm, 16);
+  g_ref_overrun    = false;
+  static jmp_buf jb;
+  if (setjmp(jb) == 0) {
+    ref_arm_overrun(&jb);
+    genbbsub_(&i2, nm, &il, &mo, &ist, &ier, 16);
+  } else {
+    g_ref_overrun = true;   // the reference kept drawing 2e6 deviates beyond what the port consumed: it does not follow the port
+  }
+  ref_arm_overrun(nullptr);
+  if (istart != 1 && ier == 0 && !g_ref_overrun) normalised[key] = std::string(nm, 16);
   return ref_script_pos();
 }
 
@@ -673,6 +682,11 @@ int main(int argc, char ** argv)
           size_t used  = run_reference(1, name, level, mode, 1, src.log, rier);
           r.min_margin = min_margin(rec.evs, src.log);
           compare(ev, rec, src, used, r);
+          if (g_ref_overrun) {
+            r.cls    = "reference-overrun";
+            r.detail = "the reference did not finish this event on the " + std::to_string(src.log.size())
+                       + " deviates the port consumed, nor on 2e6 more: the two samplers accept different trials";
+          }
           if (r.cls == "momentum") {
             // named deviation: Decay0's fermi(Z,E) raises an argument below 50 eV to 50 eV *in place* (Fortran passes
             // by reference), so a lepton sampled below 50 eV leaves the reference with exactly 50 eV
